@@ -166,6 +166,8 @@ impl Http3Codec {
             log_utils::CONNECTION_ID_FMT,
             stream_id,
         ));
+        #[cfg(trusttunnel_verif)]
+        crate::verif_emit!("H3Request", "\"id\":\"{}\"", id);
 
         self.streams.insert(
             stream_id,
